@@ -50,18 +50,21 @@ class ModelFS:
 
     DEFAULT_MODE = 0o644
 
-    def __init__(self, eng, orig_mode, kinds):
+    def __init__(self, eng, orig_mode, kinds, two_faults=False):
         self.eng = eng
         self.files = {TARGET: [ORIG, orig_mode]}
         self.n = 0
         self.fault_at = eng.int("fault_at", 0, 14)  # 0: no fault
         self.fault_kind = eng.int("fault_kind", 0, len(kinds) - 1)
+        self.fault_at2 = eng.int("fault_at2", 0, 14) if two_faults else 0  # a second, later fault (thorough tier)
+        self.fault_kind2 = eng.int("fault_kind2", 0, len(kinds) - 1) if two_faults else 0
         self.kinds = kinds
         self.crash_at = eng.int("crash_at", 0, 14)  # 0: no crash
         self.dead = False
         self.mutations = []
         self.trace = []
         self.faulted = None
+        self.fault_log = []
 
     def _maybe_fault(self, what, path):
         self.n += 1
@@ -69,6 +72,12 @@ class ModelFS:
         if self.fault_at == self.n:
             k = self.kinds[int(self.fault_kind)]
             self.faulted = (what, k)
+            self.fault_log.append((what, k))
+            return k
+        if self.faulted is not None and self.fault_at2 == self.n:
+            k = self.kinds[int(self.fault_kind2)]
+            self.faulted = (what, k)
+            self.fault_log.append((what, k))
             return k
         return None
 
@@ -278,15 +287,15 @@ class K16(Harness):
     )
     assumptions = ("os.replace is atomic", "a failing call affects only the file it operates on", "SIGKILL = nothing after the last completed OS call happens")
     bounds = "every position (1..14) of one injected fault of kind {EACCES, ENOSPC, ENOENT, EIO} x every crash point (after OS call 1..14) x --fix/--backup/parse error/config error/rule raising x original mode 0..0o777 symbolic x 1 rule with 0..1 violations"
-    outside = "two faults in one run; real kernel/file-system semantics"
+    outside = "three or more faults in one run (thorough: two); real kernel/file-system semantics"
     allowed_exceptions = ()
 
     def params(self, tier):
-        return [{}]
+        return [{}] if tier == "quick" else [{}, {"faults": 2}]
 
     def run(self, eng, p):
         orig_mode = eng.int("orig_mode", 0, 0o777)
-        fs = ModelFS(eng, orig_mode, KINDS)
+        fs = ModelFS(eng, orig_mode, KINDS, two_faults=bool(p.get("faults") == 2))
         fix = eng.bool("fix")
         backup = eng.bool("backup")
         parse_error = eng.bool("parse_error")
@@ -361,7 +370,8 @@ class K16(Harness):
             clauses.append(("C16:content_all_or_nothing", tgt[0] == ORIG or tgt[0] == (oFile.body, "\n")))
             clauses.append(("C16:mode_kept", Eq(tgt[1], orig_mode)))
         tmp_left = [k for k in files if k.endswith(".tmp")]
-        if outcome != "crashed":
+        remove_failed = any(w == "remove" for (w, k) in fs.fault_log)
+        if outcome != "crashed" and not remove_failed:  # if the removal itself is the failing call nothing can remove the file
             clauses.append(("C16:tmp_removed", not tmp_left))
         bak = files.get(TARGET + ".bak")
         if bak is not None:
